@@ -103,6 +103,10 @@ Definition pre_low_Param := proj1 (proj2 (proj2 (proj2 (proj2 (proj2 pre_low_mut
 Definition pre_low_FunctionAttribute := proj1 (proj2 (proj2 (proj2 (proj2 (proj2 (proj2 pre_low_mut)))))).
 Definition pre_low_Statement := proj1 (proj2 (proj2 (proj2 (proj2 (proj2 (proj2 (proj2 pre_low_mut))))))).
 
+Lemma only_low_below_lemma :
+  (forall x, Forall low (pre_Expression x)) /\ (forall x, Forall low (pre_Statement x)).
+Proof. split; [exact pre_low_Expression | exact pre_low_Statement]. Qed.
+
 Lemma Forall_flat_map_all {A B} (P : B -> Prop) (f : A -> list B) l :
   (forall x, Forall P (f x)) -> Forall P (flat_map f l).
 Proof. intros H. apply Forall_flat_map. apply Forall_forall. intros x _. apply H. Qed.
